@@ -499,6 +499,8 @@ def table(rnd, depth=0, max_depth=4, width=None):
 
 
 def array(rnd, depth=0, max_depth=4, width=None):
+    if width is None and rnd.random() < 0.08:
+        return near_homogeneous_array(rnd, rnd.choice([4, 16, 17, 33]))
     if width is None:
         width = rnd.choice([0, 1, 2, 3, 5])
     out = [value(rnd, depth, max_depth) for _ in range(width)]
@@ -728,3 +730,37 @@ def prefix_family_table(rnd, n):
     items = list(out.items())
     rnd.shuffle(items)
     return dict(items)
+
+
+def near_homogeneous_array(rnd, n=None):
+    """A long array of ONE kind of value with one or two intruders of a
+    neighbouring kind (int among bools, bool among ints, float among ints,
+    Decimal among floats, None, bytearray among strings ...): a fast path
+    for "arrays of one simple type" that tests membership too loosely
+    converts the intruders."""
+    n = n or rnd.choice([4, 15, 16, 17, 31, 32, 33, 64, 100, 257])
+    kind = rnd.choice(['int', 'bool', 'float', 'str', 'decimal', 'bytearray',
+                       'datetime'])
+    base = [leaf(rnd, kind) for _ in range(n)]
+    neighbours = {'int': ['bool', 'float', 'decimal', 'none'],
+                  'bool': ['int', 'none'],
+                  'float': ['int', 'decimal', 'bool'],
+                  'str': ['bytearray', 'none', 'int'],
+                  'decimal': ['int', 'float'],
+                  'bytearray': ['str', 'none'],
+                  'datetime': ['int', 'none', 'str']}[kind]
+    for _ in range(rnd.choice([1, 1, 2, 3])):
+        pos = rnd.choice([1, n - 1, n // 2, rnd.randrange(1, n)]) \
+            if n > 1 else 0
+        k2 = rnd.choice(neighbours)
+        v = leaf(rnd, k2)
+        if k2 == 'int' and kind == 'bool':
+            v = rnd.choice([0, 1, 2])
+        if k2 == 'bool' and kind == 'int':
+            v = rnd.random() < 0.5
+        if k2 == 'float' and kind == 'int':
+            v = float(rnd.randint(-5, 5))
+        base[pos] = v
+    if rnd.random() < 0.3:
+        base[0], base[-1] = base[-1], base[0]
+    return base
